@@ -26,6 +26,8 @@ Observations compared with the Lean model (lean/RV/C03/Drive.lean).  All of them
     ntparse, ntrow whole N-Triples lines, both directions;  hextp, hext  HexTuples columns, both directions
   per graph
     vl             TurtleSerializer.isValidList on every list-head candidate  vs  the model's isValidList
+    strip, stript  for IRIs under the `base` option: did the RDF/XML / Turtle writer write the cut-off rest or the absolute
+                   IRI (read off one-triple outputs)  vs  the model of `_strippable_base` / `RecursiveSerializer.relativize`
     pre            the blank nodes the Turtle / longturtle / N3 text leaves unlabelled (read off by an independent
                    scanner) must pass the model's preCheck, which `preCheck_pre` proves sufficient for `Pre`
 """
@@ -445,6 +447,51 @@ def _hext_read_back(out):
         return "none"
 
 
+BASE_MAX = 5
+
+
+def _base_probe(spec):
+    """-> [(model line, expected)]: for the IRIs of the graph that lie under the `base` option, did the RDF/XML writer
+    (Serializer.relativize) and the Turtle writer (RecursiveSerializer.relativize) write the cut-off rest or the
+    absolute IRI?  Read off their public output; the model answers with `_strippable_base`'s decision."""
+    from xml.sax.saxutils import unescape
+    base = spec.get("base")
+    if not base:
+        return []
+    iris = []
+    for tr in spec["triples"]:
+        for x in tr:
+            if x[0] == "i" and x[1].startswith(base) and x[1] not in iris:
+                iris.append(x[1])
+    lines = []
+    for iri in iris[:BASE_MAX]:
+        rest = iri[len(base):]
+        try:
+            g = Graph(bind_namespaces="none")
+            g.bind("rdf", URIRef(gg.RDF))
+            g.add((URIRef(iri), _PP, Literal("v")))
+            out = g.serialize(format="xml", base=base)
+            m = _re.search(r'rdf:about="([^"]*)"', out)
+            about = unescape(m.group(1), {"&quot;": '"', "&#10;": "\n", "&#13;": "\r", "&#9;": "\t"}) if m else None
+            got = "rel" if about == rest and about != iri else ("abs" if about == iri else "other")
+            lines.append((f"strip {cps(base)} {cps(iri)}", got))
+        except Exception:
+            pass
+        try:
+            g = Graph(bind_namespaces="none")
+            g.bind("rdf", URIRef(gg.RDF))
+            g.add((_PS, _PP, URIRef(iri)))
+            out = g.serialize(format="turtle", base=base)
+            i = out.index("<urn:x-probe-s> ")
+            obj = out[i + len("<urn:x-probe-s> "):]
+            obj = obj[obj.index(" ") + 1:].rstrip()
+            obj = obj[:-1].rstrip(" ") if obj.endswith(".") else obj
+            lines.append((f"stript {cps(base)} {cps(iri)}", "rel" if obj == f"<{rest}>" and rest != iri else "abs"))
+        except Exception:
+            pass
+    return lines
+
+
 def _read_back(text, fmt):
     """parse `<s> <p> text .` with rdflib's reader for fmt; -> 'some cps' | 'none'"""
     doc = f"<urn:x-probe-s> <urn:x-probe-p> {text} .\n"
@@ -484,8 +531,10 @@ def run_impl(case):
     if r2:
         viol += _round2(g, spec, r2, fmts, stats, case.get("opts") or {})
     probe = _probe(spec) + _hext_probe(spec) + _ntline_probe(spec)
-    sprobe = _struct_probe(spec)
+    sprobe = _struct_probe(spec) + _base_probe(spec)
     obs = [exp for _l, exp, _p in probe] + [exp for _l, exp in sprobe]
+    stats["probe_base"] = sum(1 for l, _e in sprobe if l.startswith("strip"))
+    stats["probe_base_rel"] = sum(1 for l, e in sprobe if l.startswith("strip") and e == "rel")
     stats["probe_hext"] = sum(1 for l, _e, _p in probe if l.startswith("hext"))
     stats["probe_ntline"] = sum(1 for l, _e, _p in probe if l.startswith("ntparse"))
     stats["probe_lines"] = len(probe)
@@ -518,6 +567,10 @@ def _round2(g, spec, r2, fmts, stats, opts):
     stats["round2_generated_prefix"] = stats.get("round2_generated_prefix", 0) + int(bool(re.match(r"ns\d+\Z", prefix)))
     if r2["mode"] == "replace":
         g.bind(prefix, URIRef(r2["ns"]), replace=True)
+    elif r2["mode"] == "handle":   # another handle (own NamespaceManager) on the same store
+        Graph(store=g.store, identifier=g.identifier).bind(prefix, URIRef(r2["ns"]), replace=True)
+    elif r2["mode"] == "store":    # behind the namespace managers' back
+        g.store.bind(prefix, URIRef(r2["ns"]), override=True)
     else:
         g.bind(prefix, URIRef(r2["ns"]))
     g.add((gg.term(r2["subj"]), URIRef(r2["ns"] + r2["local"]), gg.term(r2["obj"])))
@@ -610,7 +663,7 @@ _CTX_PREFIXES = [["ex", gg.NAMESPACES[0]], ["a", gg.NAMESPACES[1]], ["b", gg.NAM
 
 def model_lines(case):
     return ([l for l, _e, _p in _probe(case["spec"]) + _hext_probe(case["spec"]) + _ntline_probe(case["spec"])]
-            + [l for l, _e in _struct_probe(case["spec"])])
+            + [l for l, _e in _struct_probe(case["spec"]) + _base_probe(case["spec"])])
 
 
 def select_model_obs(case, out):
